@@ -242,6 +242,6 @@ func init() {
 			"afterwards: a stale-epoch sync is refused with an epoch mismatch and adds no log row, a stale detach succeeds, and after the closure " +
 			"(stale clients detach and re-attach fresh, quiescent round) all replicas, the server rebuild and a brand-new attacher agree; non-trivial = concurrent edits",
 		Assume:      []string{"memdb backend", "compaction is invoked through the cluster RPC exactly as housekeeping/admin do"},
-		QuickBudget: 150 * time.Second,
+		QuickBudget: 300 * time.Second,
 	})
 }
